@@ -220,17 +220,38 @@ theorem aeadSeal_panics_iff (ct tag mem : Bytes) (dst : Dst) (pt ad : Sl) :
   · simp only [h1, h2, or_self]
     cases sliceForAppend dst (pt.len + 16) <;> simp
 
+/-- the guard of Open as coded: `InexactOverlap(out, ciphertext[:n]) || AnyOverlap(out, tag)`, then the AD -/
 theorem aeadOpen_panics_iff (pt mem : Bytes) (dst : Dst) (ct ad : Sl) :
     aeadOpen pt mem dst ct ad = .panic ↔
       (inexactOverlapO (sliceForAppend dst (ct.len - 16)) ⟨ct.off, ct.len - 16⟩ = true ∨
+       anyOverlapO (sliceForAppend dst (ct.len - 16)) ⟨ct.off + (ct.len - 16), 16⟩ = true ∨
        anyOverlapO (sliceForAppend dst (ct.len - 16)) ad = true) := by
   unfold aeadOpen
   by_cases h1 : inexactOverlapO (sliceForAppend dst (ct.len - 16)) ⟨ct.off, ct.len - 16⟩ = true
   · simp [h1]
-  by_cases h2 : anyOverlapO (sliceForAppend dst (ct.len - 16)) ad = true
+  by_cases h2 : anyOverlapO (sliceForAppend dst (ct.len - 16)) ⟨ct.off + (ct.len - 16), 16⟩ = true
   · simp [h1, h2]
-  · simp only [h1, h2, or_self]
+  by_cases h3 : anyOverlapO (sliceForAppend dst (ct.len - 16)) ad = true
+  · simp [h1, h2, h3]
+  · simp only [h1, h2, h3, or_self, Bool.or_self]
     cases sliceForAppend dst (ct.len - 16) <;> simp
+
+/-- **the guard of Open is complete and exact**: for an in-place appended region `out` of `len(ct)-16` bytes,
+    `InexactOverlap(out, ct[:n]) || AnyOverlap(out, tag)` holds exactly when `out` overlaps the *whole*
+    ciphertext (tag included) inexactly — the documented condition -/
+theorem open_guard_exact (o : Sl) (ct : Sl) (hct : 16 ≤ ct.len) (ho : o.len = ct.len - 16) :
+    (inexactOverlap o ⟨ct.off, ct.len - 16⟩ = true ∨ anyOverlap o ⟨ct.off + (ct.len - 16), 16⟩ = true) ↔
+      inexactOverlap o ct = true := by
+  rw [inexactOverlap_iff, inexactOverlap_iff, anyOverlap_iff]
+  simp only [Sl.mem]
+  constructor
+  · rintro (⟨⟨i, h1, h2⟩, hne⟩ | ⟨i, h1, h2⟩)
+    · exact ⟨⟨i, h1, by omega⟩, hne⟩
+    · exact ⟨⟨i, h1, by omega⟩, by omega⟩
+  · rintro ⟨⟨i, h1, h2⟩, hne⟩
+    by_cases hi : i < ct.off + (ct.len - 16)
+    · exact Or.inl ⟨⟨i, h1, by omega⟩, hne⟩
+    · exact Or.inr ⟨i, h1, by omega⟩
 
 theorem appendNoOverlap_panics_iff (res mem : Bytes) (dst : Dst) (inp : Sl) :
     appendNoOverlap res mem dst inp = .panic ↔ anyOverlapO (sliceForAppend dst res.length) inp = true := by
@@ -256,21 +277,30 @@ theorem aeadSeal_inplace_ok (ct tag mem : Bytes) (pt ad : Sl) (cap : Nat) (hcap 
     simp [sliceForAppend]; omega
   simp [this, inexactOverlapO, anyOverlapO, inexactOverlap, had]
 
-/-! ## 4. a gap in the guard of chacha20poly1305 Open (see known_findings.txt) -/
+/-! ## 4. Open: overlap with the tag bytes (fixed in /repo 6713907; see known_findings.txt) -/
 
-/-- The statement one would like: whenever the appended region of Open overlaps the ciphertext *including
-    its tag* inexactly, Open panics.  It is false for the code as written: -/
-def open_guard_complete : Prop :=
-  ∀ (pt mem : Bytes) (dst : Dst) (ct ad : Sl),
-    inexactOverlapO (sliceForAppend dst (ct.len - 16)) ct = true → aeadOpen pt mem dst ct ad = .panic
+/-- whenever the appended region of Open overlaps the ciphertext *including its tag* inexactly, Open panics -/
+theorem open_guard_complete (pt mem : Bytes) (dst : Dst) (ct ad : Sl) (hct : 16 ≤ ct.len)
+    (h : inexactOverlapO (sliceForAppend dst (ct.len - 16)) ct = true) :
+    aeadOpen pt mem dst ct ad = .panic := by
+  rw [aeadOpen_panics_iff]
+  cases hs : sliceForAppend dst (ct.len - 16) with
+  | none => simp [hs, inexactOverlapO] at h
+  | some o =>
+    have ho : o.len = ct.len - 16 := by
+      simp only [sliceForAppend] at hs
+      split at hs
+      · cases hs; rfl
+      · cases hs
+    simp only [hs, inexactOverlapO] at h
+    have := (open_guard_exact o ct hct ho).mpr h
+    simp only [inexactOverlapO, anyOverlapO]
+    rcases this with h1 | h1
+    · exact Or.inl h1
+    · exact Or.inr (Or.inl h1)
 
-/-- witness: ciphertext buf[0:31] (15 bytes + tag), dst = buf[14:15:30]: the appended region buf[15:30]
-    lies inside the tag, overlaps the ciphertext inexactly, and the guard (which looks at
-    ciphertext[:len-16] only) lets it through -/
-theorem open_guard_gap : ¬ open_guard_complete := by
-  intro h
-  have := h [] (zeros 31) ⟨14, 1, 16⟩ ⟨0, 31⟩ ⟨0, 0⟩ (by decide)
-  revert this
-  decide
+/-- non-vacuity (the former gap): ciphertext buf[0:31], dst = buf[14:15:30] — the appended region buf[15:30]
+    lies inside the tag; Open now panics -/
+example : aeadOpen [] (zeros 31) ⟨14, 1, 16⟩ ⟨0, 31⟩ ⟨0, 0⟩ = .panic := by decide
 
 end XC.C53
